@@ -82,6 +82,7 @@ class World:
         self.ctrl_events: list = []
         self.ctrl_failed: list = []
         self.exec_failed = False
+        self.worker_died = False
         self.viol: list = []
 
     def _block(self, cond, timeout):
@@ -113,6 +114,8 @@ class World:
             if self.faults_left > 0:
                 evs.append(("drop", k))
                 evs.append(("dup", k))
+        if not self.worker_died and not self.exec_failed:
+            evs.append(("worker_dies",))  # the executor's next healthcheck fails: it reports ExecutorFailure and terminates
         if not self.ctrl_failed:
             evs.append(("ctrl_pass",))
         if not self.exec_failed:
@@ -138,6 +141,9 @@ class World:
             else:
                 self.net.duplicate(i)
                 self.faults_left -= 1
+        elif k == "worker_dies":
+            self.worker_died = True
+            self.ex.workers[self.w].exitcode = 1
         elif k == "ctrl_pass":
             self._ctrl_pass()
         elif k == "exec_pass":
@@ -214,7 +220,7 @@ class World:
             tuple(sorted(map(repr, self.br.mlistener.acked))), tuple(sorted(map(repr, self.ex.mlistener.acked))),
             tuple((a, frames(fr), r) for (a, fr, _), r in zip(self.net.flight, ranks)),
             tuple((a, tuple(frames(fr) for fr in q)) for a, q in sorted(self.net.queues.items()) if q),
-            tuple(map(repr, self.ctrl_events)), tuple(self.ctrl_failed), self.exec_failed,
+            tuple(map(repr, self.ctrl_events)), tuple(self.ctrl_failed), self.exec_failed, self.worker_died,
             (now - hb.step_time_ms * 1_000_000) > hb.grace_ms * 1_000_000,
         )
 
@@ -228,6 +234,9 @@ class World:
             if not self.exec_failed:
                 self._exec_pass()
         out = []
+        if self.exec_failed and not self.ctrl_failed:
+            out.append(("failure_report_lost", "ExecutorFailure lost once is never re-sent (the executor terminates right after sending it): the controller keeps waiting for an executor that has gone",
+                        f"executor inflight {list(self.ex.sender.inflight)}"))
         fw = self.forwarded_to_worker()
         for i in range(self.sent["ctrl"]):
             n = fw.count(self.ctrl_msg(i))
